@@ -191,11 +191,16 @@ THIRD_PARTY_EXC: Dict[str, Tuple[str, ...]] = {
 # program
 # ----------------------------------------------------------------------------------------------
 
+_PARSE_CACHE: Dict[Tuple[str, int], ast.Module] = {}   # trees are never mutated after parsing
+
+
 class Program:
-    def __init__(self, repo: str = REPO, pkg: str = PKG, overrides: Optional[Dict[str, str]] = None):
+    def __init__(self, repo: str = REPO, pkg: str = PKG, overrides: Optional[Dict[str, str]] = None,
+                 tree_overrides: Optional[Dict[str, ast.Module]] = None):
         self.repo = repo
         self.pkg = pkg
         self.overrides = overrides or {}
+        self.tree_overrides = tree_overrides or {}   # rel -> already-built module tree (used by the helper inliner)
         self.modules: Dict[str, Module] = {}
         self.classes: Dict[str, ClassInfo] = {}
         self.funcs: Dict[str, FuncInfo] = {}
@@ -224,10 +229,17 @@ class Program:
                 else:
                     with open(path, encoding='utf-8') as f:
                         source = f.read()
-                try:
-                    tree = ast.parse(source, filename=path)
-                except SyntaxError as e:
-                    raise AnalysisError(f'{rel}: does not parse: {e}')
+                if rel in self.tree_overrides:
+                    tree = self.tree_overrides[rel]
+                else:
+                    ck_ = (path, hash(source))
+                    tree = _PARSE_CACHE.get(ck_)
+                    if tree is None:
+                        try:
+                            tree = ast.parse(source, filename=path)
+                        except SyntaxError as e:
+                            raise AnalysisError(f'{rel}: does not parse: {e}')
+                        _PARSE_CACHE[ck_] = tree
                 self.modules[name] = Module(name, path, rel, source, tree, is_pkg)
         for m in self.modules.values():
             self._index_module(m)
